@@ -341,12 +341,13 @@ class Sys:
 
         def defproc(o):
             if self.fail_objproc_for is not None and \
-                    getattr(textx.get_model(o), "_tx_filename", None) == self.fail_objproc_for:
+                    (getattr(textx.get_model(o), "_tx_filename", None) or "<anon>") == self.fail_objproc_for:
                 self.proc_fired += 1
                 raise TextXSemanticError("injected")
 
         def mproc(m, mm):
-            if self.fail_modelproc_for is not None and getattr(m, "_tx_filename", None) == self.fail_modelproc_for:
+            if self.fail_modelproc_for is not None and \
+                    (getattr(m, "_tx_filename", None) or "<anon>") == self.fail_modelproc_for:
                 self.proc_fired += 1
                 raise TextXSemanticError("injected")
 
@@ -371,12 +372,21 @@ class Sys:
         return None
 
 
-def new_files(w, F, cache):
-    """NEW(F): files a load of F has to read."""
-    if F in cache:
+def new_files(w, F, cache, anon=False):
+    """NEW(F): files a load of F has to read.  anon: the text of F is given as a string without a file name - F's
+    own file is neither read nor registered (unless an import / pattern reaches it)."""
+    if anon:
+        seen = []
+        q = []
+        for g in w.direct_imports(F):
+            if g not in cache and g not in seen:
+                seen.append(g)
+                q.append(g)
+    elif F in cache:
         return []
-    seen = [F]
-    q = [F]
+    else:
+        seen = [F]
+        q = [F]
     while q:
         f = q.pop(0)
         for g in w.direct_imports(f):
@@ -387,7 +397,7 @@ def new_files(w, F, cache):
     return seen
 
 
-def check_models(ctx, prop_ok, sysm, w, model, F, cache_objs, new, fam, tag):
+def check_models(ctx, prop_ok, sysm, w, model, F, cache_objs, new, fam, tag, anon_model=None):
     """C17 oracle after a successful load(F).  Returns {file: model}."""
     am = sysm.all_models(model)
     by_file = {}
@@ -399,9 +409,10 @@ def check_models(ctx, prop_ok, sysm, w, model, F, cache_objs, new, fam, tag):
             if fn in by_file and by_file[fn] is not m:
                 ctx.violate("C17", "single-model-per-file", fam, f"two models registered for {fn}")
             by_file[fn] = m
-    by_file.setdefault(F, model)
-    if by_file[F] is not model:
-        ctx.violate("C17", "single-model-per-file", fam, f"the returned model is not the one registered for {F}")
+    if anon_model is None:
+        by_file.setdefault(F, model)
+        if by_file[F] is not model:
+            ctx.violate("C17", "single-model-per-file", fam, f"the returned model is not the one registered for {F}")
     want = set(cache_objs) | set(new)
     if set(by_file) != want:
         ctx.violate("C17", "repository-content", fam + tag,
@@ -412,10 +423,14 @@ def check_models(ctx, prop_ok, sysm, w, model, F, cache_objs, new, fam, tag):
         if by_file.get(f) is not m:
             ctx.violate("C17", "cached-identity", fam + tag, f"model of {f} is not the object cached earlier")
     # references of every model: identity of the target inside the single model of its file
-    for u in w.uses:
-        if u.file not in by_file:
-            continue
-        uo = locate(by_file[u.file], u.path())
+    owners = [(u, by_file[u.file], by_file) for u in w.uses if u.file in by_file]
+    if anon_model is not None:
+        # the string model is a second, separate instance of F's text: its own definitions are its own objects
+        view = dict(by_file)
+        view[F] = anon_model
+        owners += [(u, anon_model, view) for u in w.uses if u.file == F]
+    for u, holder, by_file_v in owners:
+        uo = locate(holder, u.path())
         lst = [r for r in u.refs if r.attr == "refs"]
         got = list(uo.refs)
         if len(got) != len(lst):
@@ -427,7 +442,7 @@ def check_models(ctx, prop_ok, sysm, w, model, F, cache_objs, new, fam, tag):
                 exp = next((d for d in sysm.builtin_model.items if d.name == r.text), None)
                 clause = "lookup-order"
             else:
-                exp = locate(by_file[r.target.file], r.target.path()) if r.target.file in by_file else None
+                exp = locate(by_file_v[r.target.file], r.target.path()) if r.target.file in by_file_v else None
                 clause = "reference-identity"
                 if getattr(r.target, "shadow", False) or any(
                         s[2] == r.target.name for s in getattr(w, "shadows", [])) or r.text in w.builtin_defs:
@@ -487,7 +502,9 @@ def run(ctx):
             opk = 3 if opk >= 3 else opk
         elif prop in ("C18", "C28"):
             opk = 4 if opk >= 2 else opk
-        as_str = t.chance(1, 4, "from-str-with-filename")
+        as_str = ["file", "file", "str", "anon"][t.draw(4, "entry")]
+        if as_str == "anon" and not anon_allowed(w, F):
+            as_str = "file"
         if opk <= 2:
             ctx.sample["ops"].append(["load", os.path.relpath(F, ROOT), params, as_str])
             ok = op_load(ctx, prop, sysm, w, F, params, cache, famtag, global_repo, as_str, shapes)
@@ -497,32 +514,44 @@ def run(ctx):
             ctx.sample["ops"].append(["load-undeclared", os.path.relpath(F, ROOT)])
             op_undeclared(ctx, sysm, w, F, params, cache, famtag, t)
         else:
-            ok = op_corrupt_cycle(ctx, prop, sysm, w, F, params, cache, famtag, global_repo, t, wrap, shapes)
+            ok = op_corrupt_cycle(ctx, prop, sysm, w, F, params, cache, famtag, global_repo, t, wrap, shapes, as_str)
             if not ok:
                 return
     ctx.sig = [fam, global_repo, sorted(shapes), [o[:2] for o in ctx.sample["ops"]]]
     ctx.stats["steps"] += len(ctx.events)
 
 
-def do_load(sysm, w, F, params, as_str):
-    if as_str:
+def do_load(sysm, w, F, params, entry):
+    """entry: 'file' | 'str' (string with file_name=) | 'anon' (string without a file name)"""
+    sysm.sched.anon_file = F if entry == "anon" else None
+    if entry == "anon":
+        return sysm.mm.model_from_str(w.files[F].text, **params)
+    if entry == "str" or entry is True:
         return sysm.mm.model_from_str(w.files[F].text, file_name=F, **params)
     return sysm.mm.model_from_file(F, **params)
 
 
+def anon_allowed(w, F):
+    """A string model without a file name cannot resolve relative imports: only without import statements."""
+    return w.family in GR or not w.files[F].imports
+
+
 def op_load(ctx, prop, sysm, w, F, params, cache, famtag, global_repo, as_str, shapes):
-    new = new_files(w, F, cache)
+    entry = as_str if isinstance(as_str, str) else ("str" if as_str else "file")
+    anon = entry == "anon"
+    as_str = entry == "str"
+    new = new_files(w, F, cache, anon)
     sysm.opens.clear()
     sysm.sched.resolved.clear()
     sysm.sched.calls.clear()
     before = dict(cache)
     try:
-        model = do_load(sysm, w, F, params, as_str)
+        model = do_load(sysm, w, F, params, entry)
     except Budget:
         ctx.violate("C09", "non-termination", famtag, "budget")
         return False
     except Exception as e:
-        ctx.violate(prop if prop in ("C17", "C27") else "C17", "valid-load-fails", famtag,
+        ctx.violate(prop if prop in ("C17", "C27") else "C17", "valid-load-fails", famtag + ("/anon" if anon else ""),
                     f"load of {os.path.relpath(F, ROOT)} failed: {dump_error(e)}")
         return False
     # ---- opens: each new file exactly once (a string load does not read its own file)
@@ -531,11 +560,19 @@ def op_load(ctx, prop, sysm, w, F, params, cache, famtag, global_repo, as_str, s
         ctx.violate("C17", "load-once", famtag,
                     f"opened {[os.path.relpath(x, ROOT) for x in sorted(sysm.opens)]}, expected "
                     f"{[os.path.relpath(x, ROOT) for x in want_opens]}")
-    if F in cache:
+    if F in cache and not anon:
         ctx.probe("cached-reload")
         if model is not cache[F]:
             ctx.violate("C17", "cached-reload", famtag, f"repeated load of {os.path.relpath(F, ROOT)} returned another model")
-    by_file = check_models(ctx, True, sysm, w, model, F, before if global_repo else {}, new, famtag, "")
+    if anon:
+        ctx.probe("anonymous-string-entry")
+    by_file = check_models(ctx, True, sysm, w, model, F, before if global_repo else {}, new, famtag,
+                           "/anon" if anon else "", anon_model=model if anon else None)
+    if anon:
+        got = dict(getattr(model, "_tx_model_params", {"<missing>": True}))
+        if got != params:
+            ctx.violate("C27", "params-reach-every-model", f"{w.family}/anon-main",
+                        f"the string model has parameters {got}, the load was given {params}")
     # ---- C27: parameters on every model created by this load; cached models keep theirs
     for f in new:
         m = by_file.get(f)
@@ -577,10 +614,12 @@ def op_undeclared(ctx, sysm, w, F, params, cache, famtag, t):
     sysm.opens.clear()
     am = sysm.all_models()
     before = list(am) if am is not None else None
-    as_str = t.chance(1, 3, "undeclared-from-str")
+    how = t.draw(3, "undeclared-entry")
     try:
-        if as_str:
+        if how == 1:
             sysm.mm.model_from_str(w.files[F].text, **bad)
+        elif how == 2:
+            sysm.mm.model_from_str(w.files[F].text, file_name=F, **bad)
         else:
             sysm.mm.model_from_file(F, **bad)
         ctx.violate("C27", "undeclared-rejected", w.family, f"undeclared parameter accepted: {sorted(bad)}")
@@ -600,12 +639,16 @@ def op_undeclared(ctx, sysm, w, F, params, cache, famtag, t):
 CORRUPTIONS = ["syntax", "dangling", "never", "ambiguous", "objproc", "modelproc"]
 
 
-def op_corrupt_cycle(ctx, prop, sysm, w, F, params, cache, famtag, global_repo, t, wrap, shapes):
-    new = new_files(w, F, cache)
-    if not new:
+def op_corrupt_cycle(ctx, prop, sysm, w, F, params, cache, famtag, global_repo, t, wrap, shapes, entry="file"):
+    anon = entry == "anon"
+    new = new_files(w, F, cache, anon)
+    cands = list(new) + ([F] if anon and F not in new else [])
+    if not cands:
         return True
-    X = t.pick(new, "failing-file")
+    X = t.pick(cands, "failing-file")
     role = "main" if X == F else ("direct" if X in w.direct_imports(F) else "transitive")
+    if anon:
+        role += "-anon"
     kinds = list(CORRUPTIONS)
     if not wrap:
         kinds.remove("never")
@@ -658,13 +701,12 @@ def op_corrupt_cycle(ctx, prop, sysm, w, F, params, cache, famtag, global_repo, 
     sysm.sched.resolved.clear()
     sysm.sched.calls.clear()
     if kind == "objproc":
-        sysm.fail_objproc_for = X
+        sysm.fail_objproc_for = "<anon>" if (anon and X == F) else X
     elif kind == "modelproc":
-        sysm.fail_modelproc_for = X
+        sysm.fail_modelproc_for = "<anon>" if (anon and X == F) else X
     err = None
-    as_str = False
     try:
-        model = do_load(sysm, w, F, params, as_str)
+        model = do_load(sysm, w, F, params, entry)
         outcome = "ok"
         del model
     except Budget:
@@ -691,19 +733,24 @@ def op_corrupt_cycle(ctx, prop, sysm, w, F, params, cache, famtag, global_repo, 
             ctx.nontrivial = True
         # ---- C28 location
         if kind in ("syntax", "dangling", "never", "ambiguous"):
-            check_location(ctx, w, X, kind, target, err, fclass)
+            check_location(ctx, w, X, kind, target, err, fclass, F if anon else None, F in new)
     # ---- C18: repositories equal the pre-attempt snapshot
     if outcome != "ok":
         am = sysm.all_models()
         if am is not None:
             now = [(k, id(v)) for k, v in am.filename_to_model.items()]
-            if sorted(now) != sorted(snap):
-                extra = [os.path.relpath(k, ROOT) for k, _ in now if (k, _) not in snap]
-                lost = [os.path.relpath(k, ROOT) for k, _ in snap if (k, _) not in now]
+            before_ids = {i for _, i in snap}
+            # no model of the failed attempt may remain (new objects), and every file cached earlier must still be
+            # there.  String models without a file name are registered as "anonymous<i>" and a later string model
+            # takes over the slot of an earlier one (has_model() compares abspath("anonymous0") with the raw key) -
+            # that quirk happens on successful loads too and is not what this property is about.
+            extra = [os.path.relpath(k, ROOT) if os.path.isabs(k) else k for k, i in now if i not in before_ids]
+            lost = [os.path.relpath(k, ROOT) for k, i in snap if os.path.isabs(k) and (k, i) not in now]
+            if extra or lost:
                 ctx.violate("C18", "repo-clean-after-failure", fclass,
                             f"after the failed load the global repository has extra {extra}, lost {lost}")
-                for k, _ in now:
-                    if (k, _) not in snap:
+                for k, i in now:
+                    if i not in before_ids:
                         del am.filename_to_model[k]
         for f, m in cache.items():
             rep = getattr(m, "_tx_model_repository", None)
@@ -716,7 +763,8 @@ def op_corrupt_cycle(ctx, prop, sysm, w, F, params, cache, famtag, global_repo, 
     # ---- repair and reload
     _undo(w, kind, target, sysm)
     ctx.sample["ops"].append(["repair+load", os.path.relpath(F, ROOT)])
-    ok = op_load(ctx, "C18" if prop in ("C18", "C28") else prop, sysm, w, F, params, cache, famtag, global_repo, False, shapes)
+    ok = op_load(ctx, "C18" if prop in ("C18", "C28") else prop, sysm, w, F, params, cache, famtag, global_repo,
+                 entry if t.chance(1, 2, "reload-same-entry") else "file", shapes)
     return ok
 
 
@@ -735,7 +783,9 @@ def _undo(w, kind, target, sysm):
     w.install(SIMFS)
 
 
-def check_location(ctx, w, X, kind, target, err, fclass):
+def check_location(ctx, w, X, kind, target, err, fclass, anon_main=None, anon_also_file=False):
+    """anon_main: the file whose text was loaded as a string without file name (its errors carry filename None;
+    when a pattern also loads that file as a file, either is consistent)."""
     text = w.files[X].text
     if kind == "syntax":
         # the injected token is the first token emitted for `target`
@@ -768,6 +818,16 @@ def check_location(ctx, w, X, kind, target, err, fclass):
     if marker and marker not in msg:
         ctx.violate("C28", "error-kind", fclass, f"expected a {marker!r} error, got: {msg}")
         return
+    if anon_main is not None:
+        acc2 = []
+        for f, lc in accept:
+            if f == anon_main:
+                acc2.append((None, lc))
+                if anon_also_file:
+                    acc2.append((f, lc))
+            else:
+                acc2.append((f, lc))
+        accept = acc2
     got = (err.get("filename"), (err.get("line"), err.get("col")))
     if got not in accept:
         mixed = any(got[0] == a[0] for a in accept) or any(got[1] == a[1] for a in accept)
